@@ -5,7 +5,9 @@ import (
 	"fmt"
 	"go/ast"
 	"go/token"
+	"go/types"
 	"math/rand"
+	"os"
 	"path/filepath"
 	"regexp"
 	"strconv"
@@ -54,13 +56,27 @@ var conds = []string{
 	"(bool)(ct)", "!bool(cf)", `name[0] == 'a'`, "x > 3", "b", "len(s) > int(cn)", "bool(b)", "flag(b) == tt",
 }
 
+// aliasConds: conditions whose TYPE is an alias of bool (deadcode mode only, see aliasDecls). Under GODEBUG=gotypesalias=1 go/types
+// records *types.Alias for them next to the constant value; under gotypesalias=0 they are plain bool. Constant ones (named
+// constants, conversions, operators over them, an alias of the alias) and non-constant ones (a variable, a conversion of one).
+var aliasConds = []string{
+	"af", "at", "!af", "!at", "(af)", "(at)", "at && af", "at || af", "aflag(false)", "aflag(true)", "!aflag(cf)", "a2f", "a2t", "!a2f",
+	"af", "at", "!af", "!at", "af == at", "bool(af)", "aflag(tt)",
+	"av", "!av", "aflag(b)", "av || af", "at && aflag(b)", "a2flag(b)",
+}
+
+const aliasDecls = "type aflag = bool\n\ntype a2flag = aflag\n\nconst at aflag = true\nconst af aflag = false\nconst a2t a2flag = true\nconst a2f a2flag = false\n\nvar av aflag\n\n"
+
+// condPool: the condition catalogue of this process (runDeadcode adds aliasConds; the other modes keep conds).
+var condPool = conds
+
 func (g *sgen) probe() string {
 	g.label++
 	return fmt.Sprintf("probe(%d)", g.label)
 }
 
 func (g *sgen) cond() string {
-	c := conds[g.rng.Intn(len(conds))]
+	c := condPool[g.rng.Intn(len(condPool))]
 	if strings.Contains(c, "%d") {
 		g.label++
 		return fmt.Sprintf(c, g.label)
@@ -301,6 +317,9 @@ func (g *sgen) stmt(depth int) {
 func genFile(rng *rand.Rand, idx, size int) string {
 	g := &sgen{rng: rng}
 	fmt.Fprintf(&g.sb, "package target\n\nimport \"unsafe\"\n\nconst ct = true\nconst cf = false\nconst cn = 5\nconst name = \"abcd\"\n\ntype flag bool\n\nconst tt flag = true\nconst tf flag = false\n\nvar _ = unsafe.Sizeof(0)\n\ntype T struct{}\n\nfunc probe(n int) int { return n }\n\n")
+	if len(condPool) != len(conds) {
+		g.sb.WriteString(aliasDecls)
+	}
 	// function literals at package level: variable initialisers, map and slice literals of funcs
 	g.max = size / 2
 	fmt.Fprintf(&g.sb, "var h%d = func(x int, b bool, s []int) {\n", idx)
@@ -485,6 +504,7 @@ type dcObs struct {
 	Order    []string          `json:"order,omitempty"`
 	Poison   string            `json:"poison,omitempty"`  // what ran on the shared state right before
 	DeadPanics int             `json:"dead_panics"`       // runs aborted by a panicking callback inside a dead branch before this one
+	Alias    string            `json:"gotypesalias,omitempty"` // GODEBUG=gotypesalias=<0|1> while the target was type-checked
 	Kinds    map[string]int    `json:"kinds,omitempty"`   // disturber rules of the history (k=catalogue) / judged reports and re-entrant runs (k=dc)
 }
 
@@ -579,6 +599,19 @@ func deadConfigs(rng *rand.Rand, pool []disturber) []deadConfig {
 			}
 			c.Kinds["helper-files-with-a-second-one"]++
 		}
+		// ... and a file of rules with type / constant-value filters on the conditions themselves (typeDisturbers)
+		tsrc, tkinds, tdropped := genTypeFile(rng, 2+rng.Intn(3), i)
+		if tsrc != "" {
+			c.Files["typef.go"] = tsrc
+			at = rng.Intn(len(c.Order) + 1)
+			order = append([]string{}, c.Order[:at]...)
+			order = append(order, "typef.go")
+			c.Order = append(order, c.Order[at:]...)
+			for k, v := range tkinds {
+				c.Kinds[k] += v
+			}
+		}
+		c.Kinds["type-templates-that-do-not-load"] = len(tdropped)
 		c.Kinds["helper-groups"] += len(c.Helpers)
 		c.Kinds["helper-name-clashes"] += hkStats(c.Helpers)
 	}
@@ -634,6 +667,7 @@ func runDeadcode(enc *json.Encoder, rng *rand.Rand, nfiles, size int, tmp string
 		// ... and the judge of its reports: every report of a *dead / *live group against the flag of its node
 		prevJudge func(reps []hReport, how string) (probes map[int]string, mismatch []string, bad string)
 	}
+	condPool = append(append([]string{}, conds...), aliasConds...)
 	dpool, dropped := usableDisturbers()
 	if len(dpool) < 16 {
 		enc.Encode(dcObs{K: "dc", Config: "disturber catalogue", Err: "disturber rules do not load: " + strings.Join(dropped, " | ")})
@@ -651,7 +685,9 @@ func runDeadcode(enc *json.Encoder, rng *rand.Rand, nfiles, size int, tmp string
 		}
 		cfgs = append(cfgs, &engCfg{name: c.Name, files: c.Files, order: c.Order, e: e, shared: ruleguard.NewRunnerState(e), pool: &statePool{e: e}, helpers: c.Helpers})
 	}
-	enc.Encode(dcObs{K: "catalogue", Probes: len(dpool), Kinds: allKinds, Mismatch: dropped})
+	_, tdropped := usableTypeDisturbers()
+	allKinds["type-templates-that-do-not-load"] = len(tdropped)
+	enc.Encode(dcObs{K: "catalogue", Probes: len(dpool), Kinds: allKinds, Mismatch: append(dropped, tdropped...)})
 	if len(cfgs) < 2 {
 		return
 	}
@@ -661,13 +697,38 @@ func runDeadcode(enc *json.Encoder, rng *rand.Rand, nfiles, size int, tmp string
 	for i := 0; i < nfiles; i++ {
 		src := genFile(rng, i, size)
 		name := fmt.Sprintf("dc%d/target.go", i)
+		// two files of three are type-checked with alias types materialised (GODEBUG=gotypesalias=1, the default of go >= 1.23
+		// modules): the conditions of aliasConds then have a *types.Alias type next to their constant value
+		aliasMode := "0"
+		if i%3 != 0 {
+			aliasMode = "1"
+		}
+		oldDebug, hadDebug := os.LookupEnv("GODEBUG")
+		os.Setenv("GODEBUG", "gotypesalias="+aliasMode)
 		t, err := hutil.CheckTarget(tmp, name, []byte(src))
+		if hadDebug {
+			os.Setenv("GODEBUG", oldDebug)
+		} else {
+			os.Unsetenv("GODEBUG")
+		}
 		if err != nil {
 			enc.Encode(dcObs{K: "dc", Name: name, Err: err.Error(), Src: src})
 			continue
 		}
 		// independent expectation + the hook's flag
 		_, _, order := buildTree(t.File)
+		aliasConst, aliasNonConst := 0, 0
+		for _, tn := range order {
+			if ifs, ok := tn.n.(*ast.IfStmt); ok {
+				if tv, ok := t.Info.Types[ifs.Cond]; ok {
+					if _, isAlias := tv.Type.(*types.Alias); isAlias && tv.Value != nil {
+						aliasConst++
+					} else if isAlias {
+						aliasNonConst++
+					}
+				}
+			}
+		}
 		exp := expected(t.Info, order, event{Func: -1})
 		expDead := map[int]bool{}
 		for _, ev := range exp {
@@ -681,7 +742,10 @@ func runDeadcode(enc *json.Encoder, rng *rand.Rand, nfiles, size int, tmp string
 		}
 		// every file under the single-file engine and under one of the other load histories
 		for _, cfg := range []*engCfg{cfgs[0], cfgs[1+i%(len(cfgs)-1)]} {
-			obs := dcObs{K: "dc", Name: name, Config: cfg.name, Kinds: map[string]int{}}
+			obs := dcObs{K: "dc", Name: name, Config: cfg.name, Kinds: map[string]int{}, Alias: aliasMode}
+			obs.Kinds["files:gotypesalias="+aliasMode]++
+			obs.Kinds["if-conditions:constant-of-alias-type"] += aliasConst
+			obs.Kinds["if-conditions:non-constant-of-alias-type"] += aliasNonConst
 			// engine verdicts on the probes: "dead" / "live" by the group of the plain probe rules that reported it; every
 			// report of a disturber rule that ends in Deadcode() / !Deadcode() is judged by the flag of its node
 			judge := func(reps []hReport, how string) (map[int]string, []string, string) {
